@@ -1,7 +1,7 @@
 (* C09 — proofs about sub-mesh extraction (Model.v). *)
 From Coq Require Import ZArith List Bool Arith Lia Permutation Sorted.
 Import ListNotations.
-From FV.C08 Require Import Table Model Proofs.
+From FV.C09 Require Import Table AttrModel AttrProofs.
 From FV.C09 Require Import Model.
 
 (* two strictly ascending lists with the same members are equal *)
